@@ -85,9 +85,9 @@ func procInit(cfg SimConfig) {
 
 	must(store.InitAuthLogicalNames(json.RawMessage(`[]`)))
 	authConf := map[string]string{
-		"basic": `{"add_to_tags": true, "min_login_length": 3, "min_password_length": 3}`,
-		"token": fmt.Sprintf(`{"expire_in": %d, "serial_num": %d, "key": %q}`, cfg.TokenExpire, cfg.TokenSerial, cfg.TokenKey),
-		"code":  fmt.Sprintf(`{"expire_in": %d, "max_retries": %d, "code_length": 6}`, cfg.CodeExpire, cfg.CodeRetries),
+		"basic":     `{"add_to_tags": true, "min_login_length": 3, "min_password_length": 3}`,
+		"token":     fmt.Sprintf(`{"expire_in": %d, "serial_num": %d, "key": %q}`, cfg.TokenExpire, cfg.TokenSerial, cfg.TokenKey),
+		"code":      fmt.Sprintf(`{"expire_in": %d, "max_retries": %d, "code_length": 6}`, cfg.CodeExpire, cfg.CodeRetries),
 		"anonymous": `{}`,
 	}
 	names := store.Store.GetAuthNames()
